@@ -75,7 +75,11 @@ func c16AfterExpiry(c *vk.Ctx, r *rand.Rand) bool {
 				cl.Close()
 				return false
 			}
+			// the report follows the write to the target: the target may see the datagram first
 			sn := as[gen-1].Snap()
+			for dl := time.Now().Add(udpB); len(sn.FromClient) == 0 && time.Now().Before(dl); sn = as[gen-1].Snap() {
+				time.Sleep(time.Millisecond)
+			}
 			if len(sn.FromClient) != 1 || sn.FromClient[0].Status != "OK" || sn.FromClient[0].A != int64(len(pkt)) || sn.FromClient[0].B != int64(len(payload)) {
 				c.Violation("C16/datagram-after-expiry-not-reported-on-its-association", map[string]any{"reports": fmt.Sprintf("%+v", sn.FromClient)})
 				cl.Close()
